@@ -757,6 +757,11 @@ func (w *World) fsRename(ex *Exec, c *callCtx) Value {
 			var cells []*LineCell
 			for i := 0; i < len(a.Cells) || i < len(b.Cells); i++ {
 				switch {
+				case !g.IsTrue() && i < len(b.Cells):
+					// a path chosen by a symbolic condition: keep the two contents side by side
+					// (merging them cell by cell nests the choice into every field)
+					cl := b.Cells[i]
+					cells = append(cells, &LineCell{Pres: And(cl.Pres, Not(alive)), Blank: cl.Blank, Parses: cl.Parses, Complete: cl.Complete, Ev: cl.Ev})
 				case i < len(a.Cells) && i < len(b.Cells):
 					na, ob := a.Cells[i], b.Cells[i]
 					cells = append(cells, &LineCell{Pres: Ite(alive, na.Pres, ob.Pres), Blank: Ite(alive, na.Blank, ob.Blank), Parses: Ite(alive, na.Parses, ob.Parses),
@@ -767,6 +772,15 @@ func (w *World) fsRename(ex *Exec, c *callCtx) Value {
 				default:
 					cl := b.Cells[i]
 					cells = append(cells, &LineCell{Pres: And(cl.Pres, Not(alive)), Blank: cl.Blank, Parses: cl.Parses, Complete: cl.Complete, Ev: cl.Ev})
+				}
+			}
+			if !g.IsTrue() {
+				cells = cells[:0]
+				for _, cl := range b.Cells {
+					cells = append(cells, &LineCell{Pres: And(cl.Pres, Not(alive)), Blank: cl.Blank, Parses: cl.Parses, Complete: cl.Complete, Ev: cl.Ev})
+				}
+				for _, cl := range a.Cells {
+					cells = append(cells, &LineCell{Pres: And(cl.Pres, alive), Blank: cl.Blank, Parses: cl.Parses, Complete: cl.Complete, Ev: cl.Ev})
 				}
 			}
 			for _, cl := range a.Cells {
